@@ -87,4 +87,70 @@ pub mod spec_rdata_set {
         if xs.len() == 0 { Seq::empty() }
         else { set_insert(class, ty, set_from(class, ty, xs.drop_last()), xs.last()) }
     }
+
+    /// Some element of `xs` equals `x`.
+    pub open spec fn any_eq(class: u16, ty: u16, xs: Seq<Seq<u8>>, x: Seq<u8>) -> bool {
+        exists|j: int| 0 <= j < xs.len() && rd_eq(class, ty, #[trigger] xs[j], x)
+    }
+
+    /// set_from never has two equal members.
+    pub proof fn lemma_set_from_no_dups(class: u16, ty: u16, xs: Seq<Seq<u8>>)
+        ensures no_dups(class, ty, set_from(class, ty, xs)),
+        decreases xs.len()
+    {
+        if xs.len() > 0 {
+            lemma_set_from_no_dups(class, ty, xs.drop_last());
+            lemma_set_insert_no_dups(class, ty, set_from(class, ty, xs.drop_last()), xs.last());
+        }
+    }
+
+    /// [C19.set_classes] the set built from `xs` represents exactly the equality
+    /// classes that occur in `xs` (this is where symmetry and transitivity of
+    /// rd_eq are needed: an element is dropped when it equals a KEPT earlier
+    /// element, which must mean: when it equals ANY earlier element).
+    pub proof fn lemma_set_from_classes(class: u16, ty: u16, xs: Seq<Seq<u8>>, x: Seq<u8>)
+        ensures has_eq(class, ty, set_from(class, ty, xs), x) == any_eq(class, ty, xs, x),
+        decreases xs.len()
+    {
+        if xs.len() > 0 {
+            let ys = xs.drop_last();
+            let y = xs.last();
+            let s0 = set_from(class, ty, ys);
+            let s1 = set_from(class, ty, xs);
+            lemma_set_from_classes(class, ty, ys, x);
+            lemma_set_from_classes(class, ty, ys, y);
+            if has_eq(class, ty, s1, x) {
+                let i = choose|i: int| 0 <= i < s1.len() && rd_eq(class, ty, #[trigger] s1[i], x);
+                if i < s0.len() {
+                    assert(s1[i] == s0[i]);
+                    assert(has_eq(class, ty, s0, x));
+                    let j = choose|j: int| 0 <= j < ys.len() && rd_eq(class, ty, #[trigger] ys[j], x);
+                    assert(xs[j] == ys[j]);
+                } else {
+                    assert(s1[i] == y);
+                    assert(xs[xs.len() - 1] == y);
+                }
+                assert(any_eq(class, ty, xs, x));
+            }
+            if any_eq(class, ty, xs, x) {
+                let j = choose|j: int| 0 <= j < xs.len() && rd_eq(class, ty, #[trigger] xs[j], x);
+                if j < ys.len() {
+                    assert(ys[j] == xs[j]);
+                    assert(any_eq(class, ty, ys, x));
+                    let i = choose|i: int| 0 <= i < s0.len() && rd_eq(class, ty, #[trigger] s0[i], x);
+                    assert(s1[i] == s0[i]);
+                } else {
+                    assert(xs[j] == y);
+                    if has_eq(class, ty, s0, y) {
+                        let i = choose|i: int| 0 <= i < s0.len() && rd_eq(class, ty, #[trigger] s0[i], y);
+                        lemma_rd_eq_trans(class, ty, s0[i], y, x);
+                        assert(s1[i] == s0[i]);
+                    } else {
+                        assert(s1[s1.len() - 1] == y);
+                    }
+                }
+                assert(has_eq(class, ty, s1, x));
+            }
+        }
+    }
 }
